@@ -299,3 +299,15 @@ func (z *RecRaster) Draw(r image.Rectangle, src image.Image, sp image.Point) {
 	z.add(RCall{K: "Draw", F: []F{}, I: []int{r.Min.X, r.Min.Y, r.Max.X, r.Max.Y, sp.X, sp.Y},
 		Src: paintJ(src), img: src})
 }
+
+func defaultPal() [64]color.RGBA {
+	var p [64]color.RGBA
+	for i := range p {
+		p[i] = color.RGBA{0, 0, 0, 0xff}
+	}
+	return p
+}
+
+func rgbaOf(c []int) color.RGBA {
+	return color.RGBA{uint8(c[1]), uint8(c[2]), uint8(c[3]), uint8(c[4])}
+}
